@@ -5,7 +5,7 @@ from . import common as C
 CORPUS = os.path.join(C.VERIF, 'corpus')
 RULE = ('committed corpus written by the pinned release (12 directories: key sizes 4/8/32, bloom on/off, ended with close '
         '(all index files) or without it (active blob has none), deletes, metas, sizes up to 5000): (1) the Coq model '
-        'replays each history and must reproduce every recorded answer AND the recorded blob files byte for byte; (2) the '
+        'replays each history and must reproduce every recorded answer AND the recorded blob files AND index files (hash and record checksums masked) byte for byte; (2) the '
         'current crate opens a copy of every directory, for EVERY subset of index files removed, eager and lazy, and must '
         'answer every recorded query identically, also after off-loading the bloom buffers re-read from the recorded index files; (3) mismatched variants: wrong key size (blobs must be quarantined, never '
         'misread), blob version bumped (init must fail with a validation error), index version / key size changed (index '
@@ -31,7 +31,10 @@ def gen(tier, rng):
             for lazy in ((False, True) if (tier != 'quick' or len(sub) in (0, nidx)) else (False,)):
                 L = list(q)
                 L[0] = L[0].replace('init=eager', 'init=lazy') if lazy else L[0]
-                L[open_i:open_i] = ['rmindex %d' % i for i in sub]
+                if 'bloom=none' not in L[0] and 'bloombits=' not in L[0]:
+                    from .gen_storage import bloom_bits
+                    L[0] += ' bloombits=%d' % bloom_bits()
+                L[open_i:open_i] = (['filehex index %d' % i for i in range(nidx)] if not sub else []) + ['rmindex %d' % i for i in sub]
                 out.append(('%s/idx-%s%s' % (e, ''.join(map(str, sub)) or 'all', '-lazy' if lazy else ''), '\n'.join(L) + '\n'))
                 if 'bloom=none' not in L[0] and len(sub) in (0, 1):
                     # the same queries once more after the bloom buffers (re-read from the recorded index files) were dropped:
